@@ -24,7 +24,7 @@ ASSUMPTIONS = [
     "hook logs of failed children assignments are not prescribed by the statement; only layers 2 and 3 apply to them",
     "calls in which a hook edits the tree itself (plan 'evict': a per-node hook detaches the first other child of its parent argument, a *_children hook re-files the first listed child under another node) are judged by layer 3 and link consistency only",
 ]
-CLASS_SPECS = ["HNM", "HLM", "HNode", "HDictLM", ["HNode", "HAnyNode", "HSymlink", "HNM"], ["HLM", "HDictLM"], "HLateNM", "HLateLM", "HInstNM", "HSlotStoreNM", "HSideNM", "HArmNM", "HInstLM"]
+CLASS_SPECS = ["HNM", "HLM", "HNode", "HDictLM", ["HNode", "HAnyNode", "HSymlink", "HNM"], ["HLM", "HDictLM"], "HLateNM", "HLateLM", "HInstNM", "HSlotStoreNM", "HSideNM", "HArmNM", "HInstLM", "HCoopNM", "HCoopLM"]
 
 
 def detach_of(state, n, old):
@@ -275,7 +275,7 @@ def plan(tier, seed):
             for i in range(shards):
                 tasks.append({"engine": "enum", "n": n, "spec": spec, "index": i, "count": shards, "pairs": n <= 2 or (n == 3 and tier == "thorough"), "maxlen": None if n <= 3 else 3, "routes": None if n <= 3 else ["parent", "detour"]})
     # classes that were already in use when they got their hooks (assigned to the class, or a callable per instance)
-    for spec in ("HLateNM", "HLateLM", "HInstNM", "HInstLM", "HArmNM", "HSideNM", "HSlotStoreNM"):
+    for spec in ("HLateNM", "HLateLM", "HInstNM", "HInstLM", "HArmNM", "HSideNM", "HSlotStoreNM", "HCoopNM", "HCoopLM"):
         for n in (2, 3):
             shards = 1 if n < 3 else 4
             for i in range(shards):
